@@ -182,6 +182,11 @@ def containment(data, site, owner, d, base):
             return ('invented', 'fault %s with the error ignored: object %s is in the model but not in the document' % (describe(data, site), k))
     if owner_key is None:
         return None
+    if owner_key in got and owner_key in snap0 and owner_key.split(':')[0] in ('nodes', 'scenes') and not (site[0] == 'dropattr' and site[2] in ('id', 'name')):
+        pr = is_part_of(got[owner_key], snap0[owner_key])
+        if pr:
+            return ('invented-inside:%s' % site[0], 'fault %s with the error ignored: the damaged %s is loaded with content the document does not have: %s'
+                    % (describe(data, site), owner_key, pr))
     for k, s0 in snap0.items():
         if k == owner_key or owner_key in closure.get(k, ()):
             continue
@@ -193,6 +198,31 @@ def containment(data, site, owner, d, base):
         if df:
             return ('changed-independent:%s' % site[0], 'fault %s with the error ignored: independent object %s differs from the undamaged load: %s' % (describe(data, site), k, df[:2]))
     return None
+
+
+def is_part_of(small, big):
+    """per-child containment: what remains of a damaged node / scene must be what the undamaged document has there, with some
+    children missing - never more, never something else. Returns None or a description."""
+    if isinstance(small, dict) and isinstance(big, dict):
+        if small.get('kind') != big.get('kind'):
+            return 'kind %r vs %r' % (small.get('kind'), big.get('kind'))
+        for key in ('children', 'nodes', 'transforms', 'materials'):
+            if key in small:
+                a, b = small[key], big.get(key, [])
+                j = 0
+                for x in a:
+                    while j < len(b) and is_part_of(x, b[j]) is not None:
+                        j += 1
+                    if j == len(b):
+                        return '%s holds %s which the document does not have there (%d loaded, %d in the document)' % (key, str(x)[:80], len(a), len(b))
+                    j += 1
+        for key in small:
+            if key in ('children', 'nodes', 'transforms', 'materials', 'matrix'):
+                continue
+            if small[key] != big.get(key):
+                return '%s: %r vs %r' % (key, small[key], big.get(key))
+        return None
+    return None if small == big else '%r vs %r' % (small, big)
 
 
 def describe(data, site):
